@@ -712,6 +712,25 @@ def setitem(I, base, key, value):
             f[key] = new
             base.write(SymStruct(val.length, f))
             return
+        if isinstance(key, (list, tuple)) and key and all(
+                isinstance(k, str) for k in key) and isinstance(v, SymStruct):
+            # a[[f1, f2, ...]] = b: numpy assigns structured values BY
+            # POSITION (the j-th field of b goes to a[fj])
+            for k in key:
+                if k not in val.fields:
+                    I.fail(f"field_{k}@{I.cur_line}")
+            if len(key) != len(v.fields) or len(set(key)) != len(key):
+                I.fail(f"multi_field_count@{I.cur_line}")
+            I.oblige(f"assign_len@{I.cur_line}",
+                     to_int(v.length) == to_int(val.length), "safety")
+            f = dict(val.fields)
+            for k, src in zip(key, v.fields.values()):
+                old = val.fields[k]
+                f[k] = SymSeq(val.length, (
+                    lambda i, src=src, old=old: _coerce_like(
+                        src.get(i), old.get(0))), old.elem)
+            base.write(SymStruct(val.length, f))
+            return
         if isinstance(key, slice):
             lo, hi = slice_bounds(I, key, val.length)
             if isinstance(v, SymStruct):
@@ -1073,6 +1092,9 @@ def resolve_pkg(dotted, depth=0):
         if isinstance(node, ast.Assign):
             for t in node.targets:
                 if isinstance(t, ast.Name) and t.id == name:
+                    tbl = _const_func_table(src, f, node.value)
+                    if tbl is not None:
+                        return tbl
                     return PkgGlobal(f, name)
     if name in src.imports and src.imports[name] != dotted:
         tgt = src.imports[name]
@@ -1080,6 +1102,32 @@ def resolve_pkg(dotted, depth=0):
             return resolve_pkg(tgt, depth + 1)
         return LIB.get(tgt) or E.ModuleRef(tgt)
     return None
+
+
+def _const_func_table(src, f, value):
+    """a module-level registry `{"name": (func, func), ...}` (constant
+    string keys, values: functions of the same module or tuples of them) as
+    a python dict of PkgFunc values; None for anything else"""
+    if not isinstance(value, ast.Dict):
+        return None
+    funcs = {n.name for n in src.tree.body if isinstance(n, ast.FunctionDef)}
+
+    def one(v):
+        if isinstance(v, ast.Name) and v.id in funcs:
+            return E.PkgFunc(f, v.id)
+        if isinstance(v, ast.Tuple):
+            xs = [one(e) for e in v.elts]
+            return None if any(x is None for x in xs) else tuple(xs)
+        return None
+    out = {}
+    for k, v in zip(value.keys, value.values):
+        if not (isinstance(k, ast.Constant) and isinstance(k.value, str)):
+            return None
+        x = one(v)
+        if x is None:
+            return None
+        out[k.value] = x
+    return out
 
 
 class PkgGlobal:
